@@ -831,6 +831,12 @@ class LockCheck:
         t0 = time.time()
         # (the tour replays were already compared step by step by B1 and are left out here)
         sel = [r for r in pending if not r["source"].startswith("B1 ")]
+        tot = sum(len(r["events"]) + 1 for r in sel)
+        cap = 400000 if tier == "quick" else 1200000
+        if tot > cap:
+            # an evenly spaced sample keeps the trace validation inside the time budget (the count is reported)
+            k = tot // cap + 1
+            sel = sel[::k]
         conf_bad, more = conform_tlc(chk, self.prefix, sel)
         nbad = len(conf_bad) + more
         chk.extra["algorithm_level_trace_validation"] = {"executions": len(sel), "accepted": len(sel) - nbad,
